@@ -2,7 +2,7 @@
 //vp:pkg ./tsdb
 //vp:roots ./tsdb/chunks
 //vp:intercept (*github.com/prometheus/prometheus/tsdb/chunks.ChunkDiskMapper).Size => vpXCdmSize
-//vp:bounds deletableBlocks/BeyondTimeRetention/BeyondSizeRetention on n<=4 blocks (quick n<=3) with symbolic MaxTime (|t|<2^62, so that differences of block times do not wrap int64), sizes in [0,2^50), Deletable flags, retention duration >= 0, MaxBytes any int64 < 2^60, head+WAL size in [0,2^40]; percentage-based limit not covered
+//vp:bounds deletableBlocks/BeyondTimeRetention/BeyondSizeRetention on n<=3 blocks, thorough also n=4 with the Deletable flags fixed false, with symbolic MaxTime (|t|<2^62, so that differences of block times do not wrap int64), sizes in [0,2^50), Deletable flags, retention duration >= 0, MaxBytes any int64 < 2^60, head+WAL size in [0,2^40]; percentage-based limit not covered
 //vp:assume the size of WAL, out-of-order WAL and head-chunk files is one arbitrary value in [0,2^40] (engine: ChunkDiskMapper.Size intercepted; native: a sparse file of that size in a real head-chunks directory)
 package tsdb
 
@@ -37,7 +37,9 @@ func vpH_C09_retention_time_size() {
 		vpAssume(vpAnd(b.meta.MinTime > -(1<<62), b.meta.MinTime < b.meta.MaxTime))
 		b.numBytesChunks = vpInt64()
 		vpAssume(vpAnd(b.numBytesChunks >= 0, b.numBytesChunks < 1<<50))
-		b.meta.Compaction.Deletable = vpBool()
+		if n < 4 {
+			b.meta.Compaction.Deletable = vpBool()
+		} // n = 4 (thorough): flags fixed false, the flag is covered for n <= 3
 		blocks[i], orig[i] = b, b
 	}
 	ret := vpInt64()
